@@ -27,6 +27,16 @@ def run(tier):
         strat = ["expand", "drop", "block"][i % 3]
         scen.append({"strategy": strat, "data": rng.choice([1, 2, 4, 16]), "max": rng.choice([32, 40, 64]), "mininc": rng.choice([1, 2, 4]), "producers": rng.choice([1, 2, 4, 8]),
                      "rows": rng.choice([50, 200] if quick else [200, 1000, 5000]), "slowsink": rng.choice([0, 0, 20, 100]), "seed": rng.randrange(1 << 30), "perturb": True})
+    # rows without attributes (empty / nil maps) among the others: they are rows - processed or counted as dropped like any other
+    for i in range(9 if quick else 300):
+        scen.append({"strategy": ["block", "expand", "drop"][i % 3], "data": rng.choice([2, 4, 16]), "max": 64, "mininc": 2, "producers": rng.choice([1, 2, 4]),
+                     "rows": rng.choice([60, 200]), "slowsink": rng.choice([0, 20]), "seed": rng.randrange(1 << 30), "perturb": True, "empties": rng.choice([3, 5, 8])})
+    # expand strategy with the buffer already AT its ceiling (nothing left to expand): rows that do not fit are dropped and counted, the
+    # others are processed in the producer's emission order
+    for i in range(6 if quick else 200):
+        cap = rng.choice([4, 8, 16])
+        scen.append({"strategy": "expand", "data": cap, "max": cap, "mininc": 2, "producers": rng.choice([1, 1, 2]), "rows": rng.choice([1000, 2000]), "slowsink": rng.choice([20, 30]),
+                     "seed": rng.randrange(1 << 30), "perturb": False})
     seqfam.run_scenarios(res, scen, "TraceIngest", spec_dir=PIPE, tag="ingest", sub="ingest")
     res.cov["exhaustive"] = False
     res.cov["distinct_nontrivial"] = len({json.dumps(s, sort_keys=True) for s in scen})
